@@ -180,6 +180,19 @@ func (c *FnCtx) callSiteAsserts(fr *Frame, st *State, in ssa.Instruction) {
 		return
 	}
 	env := c.specEnv(fr, st)
+	// arg0, arg1, ...: the actual arguments of the call the assertion is attached to (arg0 is
+	// the receiver of a method call)
+	if ci, ok := in.(ssa.CallInstruction); ok {
+		cc := ci.Common()
+		k := 0
+		if cc.IsInvoke() {
+			env.vars["arg0"] = bound{c.val(fr, st, cc.Value), cc.Value.Type()}
+			k = 1
+		}
+		for j, a := range cc.Args {
+			env.vars[fmt.Sprintf("arg%d", j+k)] = bound{c.val(fr, st, a), a.Type()}
+		}
+	}
 	for i := range cls {
 		cl := &cls[i]
 		g := c.safeEvalBool(env, cl)
@@ -564,6 +577,28 @@ func (e *Engine) initSyncMap() {
 			setDom(c, st, m, k, TFalse)
 			return nil
 		}},
+		{"CompareAndDelete", func(c *FnCtx, st *State, m Term, args []SV, rt types.Type) SV {
+			// deletes the entry iff it is present with an equal value (values compared by identity)
+			k := c.smapKey(args[1])
+			_, d := dom(c, st, m)
+			old := getVal(c, st, m, k)
+			want := c.toIface(args[2], nil)
+			del := c.vc.Name("smdel", And(Select(d, k, SBool), Eq(old.Tag, want.Tag), Eq(old.ID, want.ID)))
+			setCard(c, st, m, App(SInt, "-", card(c, st, m), Ite(del, IntLit(1), IntLit(0))))
+			h, dd := dom(c, st, m)
+			c.heapSet(st, "smap$dom", c.vc.Name("h", Store(h, m, Store(dd, k, Ite(del, TFalse, Select(dd, k, SBool))))))
+			return Sc{del}
+		}},
+		{"CompareAndSwap", func(c *FnCtx, st *State, m Term, args []SV, rt types.Type) SV {
+			k := c.smapKey(args[1])
+			_, d := dom(c, st, m)
+			old := getVal(c, st, m, k)
+			want := c.toIface(args[2], nil)
+			sw := c.vc.Name("smcas", And(Select(d, k, SBool), Eq(old.Tag, want.Tag), Eq(old.ID, want.ID)))
+			nv := c.toIface(args[3], nil)
+			setVal(c, st, m, k, c.mergeSV(sw, nv, old).(If))
+			return Sc{sw}
+		}},
 		{"Swap", func(c *FnCtx, st *State, m Term, args []SV, rt types.Type) SV {
 			k := c.smapKey(args[1])
 			_, d := dom(c, st, m)
@@ -583,6 +618,17 @@ func (e *Engine) initSyncMap() {
 		k := c.smapKey(args[1])
 		_, d := dom(c, st, m)
 		c.vc.Assert(Implies(Select(d, k, SBool), App(SBool, ">=", card(c, st, m), IntLit(1))))
+	}
+	// methods without a precise model: everything the map holds is unknown afterwards, and a
+	// callback (Range) may do anything
+	for _, name := range []string{"Range", "Clear"} {
+		e.externs["(*sync.Map)."+name] = &externHandler{note: "sync.Map." + name + " abstracted (all state unknown afterwards)", fn: func(c *FnCtx, st *State, args []SV, rt types.Type) SV {
+			c.abstract("sync.Map method without a precise model: all heaps havocked")
+			ms := newModSet()
+			ms.all = true
+			c.havoc(st, c.curFrame, ms, "sync.Map method")
+			return c.defaultResult(st, rt, "smap")
+		}, mods: func(c *FnCtx, cc *ssa.CallCommon, ms *loopModSet) { ms.all = true }}
 	}
 	for _, o := range ops {
 		o := o
